@@ -20,6 +20,7 @@ func APIRows(obs *ListObs, exposure bool) formats.Rows {
 			add := func(dir string, protected bool, es []XEntry) {
 				if !protected {
 					r.X = append(r.X, xp.Peer.Key+"|"+dir+"|entire|ALL")
+					r.XSel = append(r.XSel, xp.Peer.Key+"|"+dir+"|entire|ALL")
 					r.Unprot = append(r.Unprot, xp.Peer.Key+"|"+dir)
 					return
 				}
@@ -29,6 +30,8 @@ func APIRows(obs *ListObs, exposure bool) formats.Rows {
 						kind = "entire"
 					}
 					r.X = append(r.X, xp.Peer.Key+"|"+dir+"|"+kind+"|"+formats.ConnFromAPI(e.All, e.Raw, e.Names))
+					r.XSel = append(r.XSel, xp.Peer.Key+"|"+dir+"|"+formats.RepFromAPI(e.Entire, e.NsSel.ML, reqs(e.NsSel.Ex), e.PodSel.ML, reqs(e.PodSel.Ex))+
+						"|"+formats.ConnFromAPI(e.All, e.Raw, e.Names))
 				}
 			}
 			add("Ingress", xp.IngressProtected, xp.Ingress)
@@ -42,7 +45,16 @@ func APIRows(obs *ListObs, exposure bool) formats.Rows {
 		}
 	}
 	r.Conn, r.X, r.XIP, r.Unprot = formats.Bag(r.Conn), formats.Bag(r.X), formats.Bag(r.XIP), formats.Bag(r.Unprot)
+	r.XSel = formats.Bag(r.XSel)
 	return r
+}
+
+func reqs(ex []world.Expr) []formats.Req {
+	out := make([]formats.Req, len(ex))
+	for i, e := range ex {
+		out[i] = formats.Req{Key: e.Key, Op: e.Op, Vals: e.Vals}
+	}
+	return out
 }
 
 // ParseList parses the tool's output of the given format.
